@@ -30,7 +30,7 @@ def sig_matches(entry_sig, sig):
 
 
 def _all_parts(mod, prop, tier):
-    """the property's own parts plus the shared default-arguments part (mc/props/defaults.py) and reporting-modes part (mc/props/reports.py),
+    """the property's own parts plus the shared default-arguments part (mc/props/defaults.py) reporting-modes part (mc/props/reports.py) and results-as-operands part (mc/props/compose.py),
     where their tables have rows for it"""
     parts = list(mod.parts(tier))
     from mc.props import defaults
@@ -40,6 +40,10 @@ def _all_parts(mod, prop, tier):
     rp = reports.part(prop)
     if rp is not None:
         parts.append(rp)
+    from mc.props import compose
+    cp = compose.part(prop)
+    if cp is not None:
+        parts.append(cp)
     return parts
 
 
